@@ -54,6 +54,23 @@ type Case struct {
 	Identity   string             `json:"identity"`
 	SignReader string             `json:"signReader"` // how the blob is presented to SignBlob / VerifyBlob
 	VerReader  string             `json:"verifyReader"`
+	// FailFirst: before the round trip, one blob operation of the same kind is fed a reader that
+	// fails in mid-stream (its error is expected); it must not influence the round trip that follows
+	FailFirst string `json:"failFirst,omitempty"` // "", sign, verify
+}
+
+type failingReader struct {
+	data []byte
+	off  int
+}
+
+func (f *failingReader) Read(p []byte) (int, error) {
+	if f.off >= len(f.data)/2 {
+		return 0, errors.New("scripted read failure in mid-stream")
+	}
+	n := copy(p, f.data[f.off:len(f.data)/2])
+	f.off += n
+	return n, nil
 }
 
 // reader wraps blob bytes in readers with different (all legal) io.Reader behaviours.
@@ -344,6 +361,9 @@ func roundTrip(c *Case) (string, string) {
 	} else {
 		blob := blobBytes(c.BlobLen, c.BlobSeed)
 		var err error
+		if c.FailFirst == "sign" {
+			notation.SignBlob(ctx, sgn, &failingReader{data: append([]byte("prefix that must not leak into the next digest"), blob...)}, notation.SignBlobOptions{SignerSignOptions: sopts, ContentMediaType: c.MediaType})
+		}
 		env, _, err = notation.SignBlob(ctx, sgn, reader(c.SignReader, blob), notation.SignBlobOptions{SignerSignOptions: sopts, ContentMediaType: c.MediaType, UserMetadata: c.Metadata})
 		if err != nil {
 			return "C07:sign-failed:" + site, fmt.Sprintf("SignBlob failed for a legal request: %v", err)
@@ -352,6 +372,10 @@ func roundTrip(c *Case) (string, string) {
 		v, err := verifier.NewVerifierWithOptions(ts, vopts)
 		if err != nil {
 			return "harness", "verifier: " + err.Error()
+		}
+		if c.FailFirst == "verify" {
+			notation.VerifyBlob(ctx, v, &failingReader{data: append([]byte("prefix that must not leak into the next digest"), blob...)}, env, notation.VerifyBlobOptions{
+				BlobVerifierVerifyOptions: notation.BlobVerifierVerifyOptions{SignatureMediaType: c.Format}, ContentMediaType: c.MediaType})
 		}
 		got, out, err := notation.VerifyBlob(ctx, v, reader(c.VerReader, blob), env, notation.VerifyBlobOptions{
 			BlobVerifierVerifyOptions: notation.BlobVerifierVerifyOptions{SignatureMediaType: c.Format, UserMetadata: c.Metadata}, ContentMediaType: c.MediaType})
@@ -477,6 +501,7 @@ func drawCase(rt *rapid.T) *Case {
 			c.BlobLen = 1<<20 + 1
 		}
 		c.BlobSeed = byte(rapid.IntRange(0, 255).Draw(rt, "blobSeed"))
+		c.FailFirst = rp.Pick(rt, "failFirst", "", "", "", "", "sign", "verify")
 		c.SignReader = rp.Pick(rt, "signReader", readerKinds...)
 		c.VerReader = rp.Pick(rt, "verifyReader", readerKinds...)
 		if c.BlobLen > 100000 && (strings.Contains(c.SignReader, "one-byte") || strings.Contains(c.VerReader, "one-byte")) {
@@ -517,8 +542,11 @@ func TestC07_RoundTrip(t *testing.T) {
 		}
 		if c.Kind == "blob" {
 			cl = append(cl, "sign-reader="+c.SignReader, "verify-reader="+c.VerReader)
+			if c.FailFirst != "" {
+				cl = append(cl, "after-failed-read")
+			}
 		}
-		rec.Case(cl, true, stats.Fingerprint(c.KeySpec, c.Format, c.Signer, c.Kind, fmt.Sprintf("%+v", c.Desc), c.BlobLen, c.BlobSeed, c.MediaType, strings.Join(mk, ";"), c.ExpirySecs, c.Identity, c.SignReader, c.VerReader), func() any { return c })
+		rec.Case(cl, true, stats.Fingerprint(c.KeySpec, c.Format, c.Signer, c.Kind, fmt.Sprintf("%+v", c.Desc), c.BlobLen, c.BlobSeed, c.MediaType, strings.Join(mk, ";"), c.ExpirySecs, c.Identity, c.SignReader, c.VerReader, c.FailFirst), func() any { return c })
 		key, msg := roundTrip(c)
 		if key == "harness" {
 			rt.Fatalf("harness: %s", msg)
